@@ -50,8 +50,8 @@ T = {
         text="Anchored find, iteration and stepwise overlapping are exhausted in the model against the anchored oracle; anchored walks of the real automata (NFA anchored start, DFA anchored copy) are product-explored; recorded anchored calls validated.",
         ref="6 C09"),
     "C10": dict(
-        tech="TLC model checking of the oracle-level theorems (SpanLocal, OutsideIrrelevant, MatchesInSpan) and of ACSearch over all spans incl. start = end + 1; TLC trace validation of the span / mutated-outside / sub-slice triple of every search API",
-        text="The oracles read only haystack[start..end] (checked as theorems over all small inputs), the search machine is correct for every span, and on the real code each call is made on the span, on a copy whose outside bytes were replaced (including planted patterns straddling both boundaries) and on the sub-slice; all three are validated against the oracle, and every match must lie inside the span.",
+        tech="TLC model checking of the oracle-level theorems (SpanLocal, OutsideIrrelevant, MatchesInSpan) and of ACSearch over all spans incl. start = end + 1; TLC trace validation of the span / mutated-outside / sub-slice triple of every search API; Input as a TLA+ state machine (ACInput) model-checked with TLC and bound by TLC replay of recorded setter histories (TraceInput)",
+        text="The oracles read only haystack[start..end] (checked as theorems over all small inputs), the search machine is correct for every span, and on the real code each call is made on the span, on a copy whose outside bytes were replaced (including planted patterns straddling both boundaries) and on the sub-slice; all three are validated against the oracle, and every match must lie inside the span. The span itself is what the Input setters left behind: ACInput models every setter form, TLC checks that the span stays sliceable and that a setter changes only the fields it names, and recorded histories of setter calls on a real Input (with an empty-pattern search after each step) are replayed through the same step function.",
         ref="6 C10"),
     "C11": dict(
         tech="all operational TLA+ modules re-checked by TLC with ci = TRUE over an alphabet with a letter pair and '@'; product exploration of case-insensitive real automata (rows compared for all 256 bytes incl. @ [ ` {); trace validation of calls with mixed case, boundary bytes and bytes >= 0x80",
